@@ -166,13 +166,13 @@ def run_unit(unit, second_solver=False, timeout_ms=None):
             out['status'] = 'defect'
             out['error'] = f'only {len(obligations)} obligations generated (vacuity guard)'
             return out
-        for ob in obligations:
-            v = solve.prove(ob, second_solver=second_solver, timeout_ms=timeout_ms)
+        for v in solve.prove_all(obligations, timeout_s=max(5, int((timeout_ms or 10000) / 1000)),
+                                 second_solver=second_solver):
             out['verdicts'].append(v.as_dict())
         # canary: a false goal under the first path's condition must be refuted
         if res is not None and res.paths:
             can = Obligation(f'{unit.name}.canary', res.paths[0].st.pc, z3.BoolVal(False), 'canary')
-            cv = solve.prove(can)
+            cv, _ = solve.prove_fast(can)
             out['canary'] = cv.status
             if cv.status == 'proved':
                 out['status'] = 'defect'
